@@ -1254,11 +1254,60 @@ class C08World(Monitor):
         super().__init__(ctx)
         self.seen = {}
         self.exits = {}
+        self.last_sub = {}
+        self.last_writer = {}
+        self.pending = {}    # root vproc id of a command that released the role -> (seq, unreported names)
+
+    def _root(self, vpid):
+        if vpid is None or vpid < 0:
+            return None
+        vp = self.w.vprocs[vpid]
+        while vp.parent is not None and vp.parent.role != "node":
+            vp = vp.parent
+        return vp.id
+
+    def on_status(self, sub, o):
+        """'Reported as newly completed to exactly one submitter round': a round that moves a result into
+        the consolidated file also reports it, which makes the job `done` in the status it persists.  At the
+        instant a command releases the submitter role every consolidated result therefore belongs to a done
+        job (checked for commands that end normally, in histories without a crashed process)."""
+        cfg, js = o.get("cfg"), o.get("js")
+        if cfg is None or js is None or sub.sc.mode != "hpc":
+            return
+        cur = cfg.get("submitter")
+        prev = self.last_sub.get(sub.outrel, "<none yet>")
+        self.last_sub[sub.outrel] = cur
+        if prev in (None, "<none yet>") or cur is not None:
+            return
+        root = self._root(self.last_writer.get(sub.outrel))
+        if root is None:
+            return
+        try:
+            rows = state.read_rows(os.path.join(sub.out, "processed_results.csv")) or []
+        except state.Unparsable:
+            return
+        done = {j["name"] for j in js.get("jobs", []) if j.get("state") == "done"}
+        pend = sorted({r["name"] for r in rows} - done)
+        self.w.probe("role_release_checked")
+        if pend:
+            self.pending[root] = (o["seq"], pend)
 
     def on_record(self, rec):
         seq, vt, kind, vpid, d = rec
         if kind == "job_exit":
             self.exits.setdefault(d["name"], []).append(d)
+        elif kind == "fs" and d.get("op") == "write" and d.get("path", "").endswith("/cluster_config.json"):
+            sub = self.ctx.sub_for_path(d["path"])
+            if sub is not None:
+                self.last_writer[sub.outrel] = vpid
+        elif kind == "exit" and vpid in self.pending:
+            seqp, pend = self.pending.pop(vpid)
+            vp = self.w.vprocs[vpid]
+            if (d.get("rc") == 0 and not vp.crash and not vp.killed and self.ctx.fault_free
+                    and not any(v.crash or (v.killed and v.kill_reason != "reap") for v in self.w.vprocs)):
+                self.bad("collected_but_not_reported", "a consolidated result was not reported to the round that collected it",
+                         f"{vp.role} released the role at seq {seqp} and ended normally; consolidated results of "
+                         f"{pend} belong to jobs that are not marked done")
         if kind != "lock_release" or not d.get("path", "").endswith("processed_results.csv.lock"):
             return
         sub = self.ctx.sub_for_path(d["path"])
